@@ -260,6 +260,43 @@ def run(rep, tier, seed):
                     rep.violation("C16:earlier-function-%s" % ("lost" if nm not in ff else "changed"),
                                   "fault %s after the declaration of function %s: %s" % (g["fault"], nm, "missing" if nm not in ff else "changed"), g["case"])
                     break
+    # ---- a fixed two-template fixture (shared with C07): after a fault inside a label of template F - including labels
+    # abandoned inside a quantifier body - everything outside F (globals, template G with a parameter and locals whose
+    # types use a name that F re-declares locally, instances, processes) must equal the fault-free document
+    from . import c07
+    fx = []
+    for fi, (fname, _) in enumerate(c07.FAULTY):
+        if not fname.split(":")[0] in ("guard", "invariant", "assign", "sync", "select"):
+            continue
+        for f_first in (True, False):
+            fx.append((fname, f_first, Case("fx%d" % len(fx), [Step("parse_builder", 0, "xml_buffer", 1, "doc", 1, c07.build_recovery(0, f_first)),
+                                                                  Step("parse_builder", 1, "xml_buffer", 1, "doc", 1, c07.build_recovery(fi, f_first))], timeout=60)))
+    fres = run_cases([c for _, _, c in fx])
+    for fname, f_first, c in fx:
+        r = fres[c.id]
+        if r["status"] != "ok":
+            rep.crash(r, c)
+            continue
+        s0, s1 = r["steps"][0], r["steps"][1]
+        if s0.get("exc") or s0["errors"] or s1.get("exc"):
+            rep.inconclusive_case("fixture: base rejected or faulted parse threw")
+            continue
+        rep.observe(("fixture", fname, f_first))
+        def outside_F(doc):
+            d2 = copy.deepcopy(doc)
+            d2.pop("flags", None)
+            d2["templates"] = [t for t in d2["templates"] if t["name"] != "F"]
+            return d2
+        d = deepdiff.first_diff(outside_F(s0["doc"]), outside_F(s1["doc"]))
+        if d:
+            rep.violation("C16:fixture:document-disturbed:%s:%s" % (fname.split(":")[0], re.sub(r"\[\d*\]", "[]", d[0])),
+                          "fault %r in a label of template F (F %s G) changes %s outside F: %r -> %r" % (
+                              fname, "before" if f_first else "after", d[0], d[1], d[2]), c)
+        for e in s1["errors"]:
+            if "/template[%d]/" % (1 if f_first else 2) not in e["path"]:
+                rep.violation("C16:fixture:diagnostic-in-other-block:%s" % fname.split(":")[0], "fault %r inside F: error %r attributed to %s" % (
+                    fname, e["msg"], e["path"]), c)
+                break
     rep.sample({"type": items[0]["type"], "fault": items[0]["fault"], "xml": items[0]["xml"][:900]})
     rep.rule = ("one fault in one non-declaring label (guard, invariant, synchronisation, update, probability, rate) of a "
                 "generated multi-template model: document at builder level compared with the fault-free parse, that "
